@@ -9,6 +9,11 @@ import PhreeqcVerif.Model.Transport
     col <name> <first> <last> <cell1> … <celln>     one extensive quantity (doubles as 16 hex digits)
     run <shifts>         → `S <step> <name> <cells…>` for every step and quantity (Float execution of `transportStepWith`)
     advect <shifts>      → the same for the ADVECTION keyword
+    stag <exch> <th_m> <th_im> <stagkin_time> <e1> … <en>   stagnant layer; e_i = `-` or `<water_m hex>:<water_im hex>`
+        → `SW <i> <mSelf> <mFromIm> <imSelf> <imFromM>` (hex doubles; f = exp(…) evaluated in Float as the code does)
+    stagw <e1> … <en>    explicit MIX-defined pairs; e_i = `-` or `mSelf,mFromIm,imSelf,imFromM` (rationals) → `SWN <count>`
+    scol <name> <first> <last> <cell…> ; <immobile cell…>      quantity in a column with stagnant layer
+    srun <shifts>        → `S <step> <name> <mobile cells>` and `I <step> <name> <immobile cells>`
     reset                forget the quantities
     mark <id>            → `M <id>` -/
 namespace Driver.Transport
@@ -51,6 +56,8 @@ structure St where
   nmix : Nat := 0
   weights : List (W Rat) := []
   comps : Array (String × Col Float) := #[]
+  stagw : List (Option (StagW Float)) := []
+  scomps : Array (String × SCol Float) := #[]
 
 def showCells (c : Col Float) : String := String.intercalate " " (c.cells.map hexOfFloat)
 
@@ -75,7 +82,50 @@ def step (st : St) (line : String) : St × List String :=
     match floatOfHex f, floatOfHex l, allSome (cells.map floatOfHex) with
     | some f, some l, some cs => ({ st with comps := st.comps.push (name, { first := f, cells := cs, last := l }) }, [])
     | _, _, _ => (st, ["bad-col"])
-  | ["reset"] => ({ st with comps := #[] }, [])
+  | ["reset"] => ({ st with comps := #[], scomps := #[] }, [])
+  | "stag" :: ex :: tm :: ti :: sk :: entries =>
+    match parseRat ex, parseRat tm, parseRat ti, parseRat sk with
+    | some ex, some tm, some ti, some sk =>
+      let exF := floatOfRat ex
+      let tmF := floatOfRat tm
+      let tiF := floatOfRat ti
+      let skF := floatOfRat sk
+      -- b = th_m / (th_m + th_im); f = exp(-exch_f * stagkin_time / (b * th_im))
+      let b := tmF / (tmF + tiF)
+      let f := Float.exp ((-exF) * skF / (b * tiF))
+      let sw : List (Option (StagW Float)) := entries.map fun e =>
+        match e.splitOn ":" with
+        | [a, c] => match floatOfHex a, floatOfHex c with
+          | some wm, some wim => some (stagWeights f tmF tiF wm wim)
+          | _, _ => none
+        | _ => none
+      let out := sw.zipIdx.filterMap fun (w, i) => w.map fun w =>
+        s!"SW {i + 1} {hexOfFloat w.mSelf} {hexOfFloat w.mFromIm} {hexOfFloat w.imSelf} {hexOfFloat w.imFromM}"
+      ({ st with stagw := sw }, out)
+    | _, _, _, _ => (st, ["bad-stag"])
+  | "stagw" :: entries =>
+    -- explicit MIX-defined mobile/immobile pairs: entry `-` or `mSelf,mFromIm,imSelf,imFromM` (rationals)
+    let sw : List (Option (StagW Float)) := entries.map fun e =>
+      match (e.splitOn ",").map parseRat with
+      | [some a, some b, some c, some d] =>
+        some { mSelf := floatOfRat a, mFromIm := floatOfRat b, imSelf := floatOfRat c, imFromM := floatOfRat d }
+      | _ => none
+    ({ st with stagw := sw }, [s!"SWN {(sw.filter Option.isSome).length}"])
+  | "scol" :: name :: f :: l :: rest =>
+    match rest.splitOn ";" |>.map (fun xs => allSome (xs.map floatOfHex)), floatOfHex f, floatOfHex l with
+    | [some cs, some is], some f, some l =>
+      ({ st with scomps := st.scomps.push (name, { mob := { first := f, cells := cs, last := l }, imm := is }) }, [])
+    | _, _, _ => (st, ["bad-scol"])
+  | ["srun", k] =>
+    match st.setup, k.toNat? with
+    | some s, some k =>
+      let ws := st.weights.map wFloat
+      let stepF : SCol Float → SCol Float := transportStagStepWith ws st.stagw st.nmix (preMixes s st.nmix) s.flow
+      let out := st.scomps.toList.flatMap fun (name, c) =>
+        (runWithS stepF k c).zipIdx.flatMap fun (c', t) =>
+          [s!"S {t + 1} {name} {showCells c'.mob}", s!"I {t + 1} {name} {String.intercalate " " (c'.imm.map hexOfFloat)}"]
+      (st, out)
+    | _, _ => (st, ["bad-op"])
   | ["mark", i] => (st, [s!"M {i}"])
   | ["run", k] =>
     match st.setup, k.toNat? with
